@@ -311,7 +311,7 @@ theorem Views.restart {cfg : Cfg} {dist : Nat → Nat} (inj : Injective dist) {d
   obtain ⟨hp, hdk⟩ := restart_byDist inj _ hn
   refine ⟨hp, hdk, hn, calcFarthest_ok dist _, ?_⟩
   simp only [SafeNet.Store.restart]
-  have : (keys (disk.filter (fun e => (scanType cfg e.2).isSome))).Sublist (keys disk) := by
+  have : (keys (disk.filter (fun e => (scanEntry cfg e.1 e.2).isSome || !nameKept e.1))).Sublist (keys disk) := by
     simp only [keys]; exact (List.filter_sublist).map _
   exact this.nodup hd
 
